@@ -209,7 +209,9 @@ class CallsMixin:
         # second operand: an in-place write to whatever storage it shares
         if name.startswith('scipy.') and short not in ('lstsq',):
             for flag, i_, alt in (('overwrite_a', 0, 'a'),
-                                  ('overwrite_b', 1, 'b')):
+                                  ('overwrite_b', 1, 'b'),
+                                  # transforms (scipy.fft / scipy.fftpack)
+                                  ('overwrite_x', 0, 'x')):
                 fv = kw.get(flag)
                 if fv is not None and I.truth(fv) is not False:
                     raw = kw.get(alt) if alt in kw else (
@@ -648,6 +650,7 @@ class CallsMixin:
         a = pos[0] if pos else TOP()
         sh = self.kwarg(pos, kw, 1, 'newshape') or kw.get('shape')
         order = kw.get('order')
+        self.order_site('reshape', [], kw, node)
         o = order.c if order is not None and order.has_const() else 'C'
         return self.do_reshape(a, sh, o, node)
 
@@ -748,6 +751,19 @@ class CallsMixin:
                 not (cnt.has_const() and cnt.c < 0):
             return ARR((cnt.p,), dt)
         return ARR((n,), dt)
+
+    def n_size(self, pos, kw, node, env):
+        # np.size(a): number of elements (of a list: its length, nested
+        # lists are not looked into here)
+        v = pos[0] if pos else TOP()
+        if len(pos) > 1 or 'axis' in kw:
+            return INT()
+        if v.k in ('list', 'tuple') and v.items is not None and \
+                all(x.k in ('int', 'float', 'bool') for x in v.items):
+            return INT(len(v.items))
+        if v.k == 'arr':
+            return self.arr_attr(v, 'size', node)
+        return INT()
 
     def n_swapaxes(self, pos, kw, node, env):
         a = self.as_arr(pos[0])
@@ -1780,7 +1796,8 @@ class CallsMixin:
         if len(a.dims) == 2:
             return ARR((pmin(a.dims[0], a.dims[1]) if a.dims[0] is not None
                         and a.dims[1] is not None else None,), a.dt,
-                       org=a.org, taint=a.taint, deg=a.deg)
+                       org=a.org, taint=a.taint, deg=a.deg, unit=a.unit,
+                       lg=a.lg)
         return ARR(None, a.dt)
 
     def n_searchsorted(self, pos, kw, node, env):
@@ -1947,7 +1964,10 @@ class CallsMixin:
             return TUPLE([ARR(None, 'f')] * 3)
         m, n = a.dims
         k = pmin(m, n) if m is not None and n is not None else None
-        return TUPLE([ARR((m, m), 'f'), ARR((m, k), 'f'), ARR((k, n), 'f')])
+        # P and L are dimensionless (unit pivots), U carries the scale of A
+        u_ = ARR((k, n), 'f')
+        u_.unit = a.unit if a.unit is not None else Fraction(1)
+        return TUPLE([ARR((m, m), 'f'), ARR((m, k), 'f'), u_])
 
     def x_scipy_linalg_solve_triangular(self, pos, kw, node, env):
         a, b = self.as_arr(pos[0]), self.as_arr(pos[1])
